@@ -53,6 +53,21 @@ def expiryUs (durationUs tUs : Nat) : Nat := (tUs / 1000000 + durationUs / 10000
 /-- a reader takes the File element's FEC-OTI attributes when the File carries an encoding id, else the FDT-Instance's -/
 def resolveOti (fdt file : OtiAttrs) : OtiAttrs := if file.enc.isSome then file else fdt
 
+/-- the cache directive a receiver must end up with for an object announced with directive `c` in an instance built at `now`
+    (whole seconds; no directive: the FDT expiry as a hint) -/
+def cacheRead (durationUs now : Nat) : Option CacheCtl → RCache
+  | none => .expiresAtHint (expiryUs durationUs now)
+  | some .noCache => .noCache
+  | some .maxStale => .maxStale
+  | some (.expiresIn d) => .expiresAt ((now + d) / 1000000 * 1000000)
+  | some (.expiresAt t) => .expiresAt (t / 1000000 * 1000000)
+
+/-- the absolute expiry of the directive lies in NTP era 0 -/
+def cacheInEra (now : Nat) : Option CacheCtl → Prop
+  | some (.expiresIn d) => (now + d) / 1000000 + 2208988800 < 2^32
+  | some (.expiresAt t) => t / 1000000 + 2208988800 < 2^32
+  | _ => True
+
 /-- time stamp carried by an operation -/
 def opTime : Op → Option Nat
   | .publish t => some t
